@@ -125,7 +125,8 @@ Definition equal_segments (nseg : nat) (p1 p2 : V3) : list seg :=
 
 Definition segs_of_pairs (l : list (V3 * V3)) : list seg := map (fun s => mk_segment (fst s) (snd s)) l.
 
-(* Wire.compute_segments: tapering falls back to equal segments on Taper_Error *)
+(* Wire.compute_segments: tapering falls back to equal segments on Taper_Error and when a taper
+   precondition / postcondition assertion fails *)
 Definition segments_of (g : gobj) : tresult (list seg) :=
   match g_shape g with
   | SCurve pts => TOk (pairwise_segs pts)
@@ -137,13 +138,13 @@ Definition segments_of (g : gobj) : tresult (list seg) :=
           match taper2 p1 p2 n (g_r g) mn tmax with
           | TOk l => TOk (segs_of_pairs l)
           | TaperError => TOk (equal_segments n p1 p2)
-          | AssertFail k => AssertFail k
+          | AssertFail _ => TOk (equal_segments n p1 p2)
           end
       | S t01 =>
           match taper1 p1 p2 n (g_r g) mn tmax (Nat.eqb t01 1) with
           | TOk l => TOk (segs_of_pairs l)
           | TaperError => TOk (equal_segments n p1 p2)
-          | AssertFail k => AssertFail k
+          | AssertFail _ => TOk (equal_segments n p1 p2)
           end
       end
   end.
